@@ -10,11 +10,16 @@ own_clause = PP.own_clause_for(PROP)
 signature = PP.signature
 EXHAUSTIVE = False
 RULE = ("worlds biased to interesting incidence structures: paired/gapped reads producing interleaved and nested components, depth "
-        "above a small cap so that read selection cuts components, several samples, trios/quartets (master block of homozygous "
+        "above a small cap so that read selection cuts components, deep nesting (about 15% of the worlds: 8-12 sites, fragments covering 2-3 "
+        "far-apart sites each through reference skips, candidates drawn until the input structure has 2-3 nesting levels, i.e. a small "
+        "outer component is joined to a larger one inside it and their union to a still larger one starting further right, random "
+        "file order of the fragments), several samples, trios/quartets (master block of homozygous "
         "positions, with and without --no-genetic-haplotyping), PS and HP tags; connectivity is computed by TLC from the reads the "
         "code reports as used (H1 hook); non-trivial = at least two phase sets in one sample/chromosome, or a pedigree run")
 ASSUMPTIONS = [
     "connectivity is judged on the reads whatshap itself reports as selected (H1), not on what the harness intended",
+    "the number of nesting levels of a deep-nesting world is computed from the generated incidence structure alone (nesting_levels), "
+    "assuming the ReadSet order by first site; the verdict never depends on it (connectivity and leftmost site come from H1 + TLC)",
     "with --distrust-genotypes heterozygosity and the master block are taken from the run's own result (super-reads recorded by H1)",
 ]
 
@@ -67,11 +72,80 @@ def sparse_gapped_world(rng):
             "samples": ["s1"], "truth": {"s1": [truth]}, "reads": reads, "errfree": True, "ped": []}
 
 
+def nesting_levels(n, reads):
+    """Structural measure of an incidence structure (reads = sorted tuples of site indices): joining the reads from left to right
+    (by first site, the order of a ReadSet), how many times in a row the part that holds the leftmost site of a growing component
+    was the minority at a join (strictly fewer sites than the other part, or as many and at least two).  0 for chains of
+    overlapping reads; >= 2 means a small outer component was swallowed by a larger one lying inside/right of it, and their union
+    again by a still larger one whose leftmost site lies further right."""
+    comp = {i: i for i in range(n)}
+    members = {i: [i] for i in range(n)}
+    depth = {i: 0 for i in range(n)}
+    best = 0
+    for r in sorted(reads, key=lambda r: r[0]):
+        for y in r[1:]:
+            a, b = comp[r[0]], comp[y]
+            if a == b:
+                continue
+            lo, hi = (a, b) if min(members[a]) < min(members[b]) else (b, a)
+            nl, nh = len(members[lo]), len(members[hi])
+            d = depth[lo] + (1 if nl < nh or (nl == nh and nl >= 2) else 0)
+            members[lo] += members[hi]
+            for s in members[hi]:
+                comp[s] = lo
+            del members[hi]
+            depth[lo] = d
+            best = max(best, d)
+    return best
+
+
+def nested_levels_world(rng, want_levels=2, tries=400):
+    """8-12 heterozygous SNVs in ONE sample, 3-11 fragments that each cover 2-3 FAR-APART sites (one alignment whose other sites lie
+    in reference skips): the fragments start at the first few sites and reach arbitrarily far to the right, so that components are
+    interleaved and nested over several levels (a component inside the gap of another one inside the gap of a third ...) and are
+    joined late, from the right.  Candidates are drawn until the structure has at least `want_levels` nesting levels
+    (nesting_levels above; a property of the INPUT, no code under test involved); the order of the fragments in the file (= their
+    names, which break ties of the ReadSet order) is random."""
+    n, reads = 0, []
+    for _ in range(tries):
+        n = rng.randint(8, 12)
+        reads = []
+        if rng.random() < 0.8:
+            for j in range(rng.randint(3, 6)):          # fragments starting at site j, one per start site or two
+                for _ in range(1 if j == 0 else rng.choice([1, 2])):
+                    m = 1 if j == 0 else rng.randint(1, 2)
+                    reads.append(tuple(sorted([j] + rng.sample(range(j + 1, n), m))))
+        else:                                           # any 2-3 sites
+            for _ in range(rng.randint(3, n)):
+                reads.append(tuple(sorted(rng.sample(range(n), rng.randint(2, 3)))))
+        reads = sorted(set(reads))
+        if nesting_levels(n, reads) >= want_levels:
+            break
+    rng.shuffle(reads)
+    truth = [rng.choice([[0, 1], [1, 0]]) for _ in range(n)]
+    rd = [{"sample": "s1", "chrom": 0, "hap": rng.randint(0, 1), "first": r[0], "last": r[-1], "gap": None, "sites": list(r), "copies": 1}
+          for r in reads]
+    return {"seed": rng.randrange(10 ** 6), "chroms": [{"name": "chr1", "sites": [{"kind": "snv", "len": 1} for _ in range(n)]}],
+            "samples": ["s1"], "truth": {"s1": [truth]}, "reads": rd, "errfree": True, "ped": []}
+
+
 def scenarios(ctx):
     rng = ctx.rng
     scs = []
     n = 2500 if ctx.quick else 25000
     for i in range(n):
+        if rng.random() < 0.15:
+            # deep nesting: several levels of interleaved components from fragments covering 2-3 far-apart sites each
+            w = nested_levels_world(rng, want_levels=rng.choice([0, 2, 2, 2, 3]))
+            w["opts"] = {"tag": rng.choice(["PS", "HP"]), "max_coverage": rng.choice([15, 15, 15, 5])}
+            if rng.random() < 0.2:
+                w["stale_phase"] = rng.choice(["PS", "HP"])
+            if rng.random() < 0.2:
+                w["gt_desc"] = True
+            if rng.random() < 0.1:
+                w["first_at_zero"] = True
+            scs.append({"world": w})
+            continue
         mode = rng.random()
         if mode < 0.65:
             # a third of the worlds mix indels in; under --only-snvs those are records the run skips
@@ -149,7 +223,8 @@ MANIFEST = {
             "exhaustively (tiny worlds, all stage choices) that written phase sets are exactly those components. On recorded whole runs "
             "TLC recomputes the reflexive-transitive closure of 'some selected read covers both' (plus the master block of homozygous "
             "positions in pedigree mode) from the H1 hook record and requires: same PS iff connected, PS = 1 + leftmost position of the "
-            "component, for PS and HP tags, single samples, trios and quartets, with selection cutting components.",
+            "component, for PS and HP tags, single samples, trios and quartets, with selection cutting components, and for components of 8-12 "
+            "variants built over several nesting levels from gapped fragments of 2-3 far-apart variants (joined late, from the right).",
     "note": "trusted: TLC, PhaseRun.tla (Closure/CompOf), H1 hook (guarded, add-only), projection of the output VCF",
     "technique": "TLA+ connectivity definition evaluated by TLC on recorded runs (trace validation) + model-checked pipeline composition",
 }
